@@ -38,6 +38,10 @@ def make_triple(G, i):
     return make_obj(G, ka, fr), make_obj(G, kb, fr), make_obj(G, kc, fr)
 
 
+def R_choice(G, l):
+    return l[G.R.randrange(len(l))]
+
+
 def big(o):
     pts = [p for p in o[1:] if isinstance(p, tuple)] if o[0] not in 'GB' else (o[1] if o[0] == 'G' else [q for f in o[1] for q in f])
     return max(abs(c) for p in pts for c in p) > 14
@@ -53,6 +57,13 @@ def work(args):
             A, B, C = make_triple(G, idx * 13 + i)
             if not (big(A) or big(B) or big(C)):
                 break
+        if (idx * 13 + i) % 7 == 3:
+            # a pair from the bounded-exhaustive collinear catalogue (touching / back-to-back / nested 1-D objects) with a
+            # third operand through a point of their line
+            cat = G.collinear_catalogue()
+            A, B, _ = R_choice(G, cat)
+            o = A[1]
+            C = G.R.choice([('P', o), ('PL', o, G.dirv(2)), ('L', o, G.dirv(2)), ('S', o, E.add(o, G.dirv(2)))])
         rec = dict(A=A, B=B, C=C)
         try:
             a, b, c = impl.build(A), impl.build(B), impl.build(C)
